@@ -167,6 +167,12 @@ def restart_walker(ctx, rule):
     ctx.need(rule, walker, "sites that restart delivery in the enclosing scope (`self._parent_scope._restart_cancellation()`)", n, 1)
     v = check_walker(ctx, rule, walker)
     if v:
+        # (the scope found by the walk may be handed on through a copy: `found = scope` ... `found._deliver_cancellation(found)`)
+        copies = [u(e_["X"]) for _, e_ in ctx.sites(walker, f"$X = {v}") if isinstance(e_["X"], ast.Name)]
+        for c_ in copies:
+            if ctx.sites(walker, f"{c_}._deliver_cancellation({c_})") and not ctx.sites(walker, f"{v}._deliver_cancellation({v})"):
+                v = c_
+                break
         ds = ctx.sites(walker, f"{v}._deliver_cancellation({v})")
         if ctx.need(rule, walker, "restart delivers from the closest cancelled scope", len(ds), 1):
             ctx.require_at(rule, walker, ds[0][0], [[f"{v}._cancel_called", f"{v}._cancel_handle is None"]],
